@@ -271,7 +271,7 @@ Proof.
 Qed.
 
 (* a loop that appends one value per element *)
-Lemma py_for_append {X} (g : X -> Z) (body : list Z -> X -> res (list Z)) xs : forall acc,
+Lemma py_for_append {X A} (g : X -> A) (body : list A -> X -> res (list A)) xs : forall acc,
   (forall st x, In x xs -> body st x = Ok (st ++ [g x])) -> py_for xs acc body = Ok (acc ++ map g xs).
 Proof.
   induction xs as [|x r IH]; intros acc H; simpl.
@@ -299,4 +299,10 @@ Lemma py_for_total {S X} (f : S -> X -> S) (body : S -> X -> res S) xs : forall 
 Proof.
   induction xs as [|x r IH]; intros st H; simpl; [reflexivity|].
   rewrite (H st x) by (left; reflexivity). simpl. apply IH. intros st' y Hy. apply H. right. exact Hy.
+Qed.
+
+Lemma zrange_seq a b : zrange (Z.of_nat a) (Z.of_nat b) 1 = map Z.of_nat (seq a (b - a)).
+Proof.
+  unfold zrange. simpl. replace (Z.of_nat b - Z.of_nat a + 1 - 1) with (Z.of_nat b - Z.of_nat a) by lia.
+  rewrite Z.div_1_r. replace (Z.to_nat (Z.of_nat b - Z.of_nat a)) with (b - a)%nat by lia. apply zrange_n_seq.
 Qed.
